@@ -153,6 +153,9 @@ static void upipe_chunk_stream_flush(struct upipe *upipe)
                ? upipe_chunk_stream->size
                : ((remaining / upipe_chunk_stream->align)
                            * upipe_chunk_stream->align);
+        /* less than one aligned unit left: the tail is dropped below */
+        if (unlikely(!size))
+            break;
 
         uref = upipe_chunk_stream_extract_uref_stream(upipe, size);
         if (unlikely(!uref)) {
